@@ -173,6 +173,175 @@ def directed_cases(bs=4096):
 
 
 # ---------------------------------------------------------------------------------------------
+# sharing cases (audit 4, finding 1): identical files, files that are a sub-run of an earlier file, runs that
+# overlap themselves - and the STRONG layout statement evaluated on the real image without the model
+# ---------------------------------------------------------------------------------------------
+
+def compressible(rnd, n, tag):
+    words = [b"lorem", b"ipsum", b"dolor", b"sit", b"amet", b"%d" % tag, b"sed", b"do"]
+    out = bytearray()
+    while len(out) < n:
+        out += rnd.choice(words) + b" "
+    return bytes(out[:n])
+
+
+def gen_share_files(rnd, bs):
+    """[(path, content)] with planned coincidences: copies, sub-runs of another file at block boundaries, a repeated
+    block, a common first block with a different rest, plus unrelated files; random and compressible data"""
+    mk = (lambda n, tag: bytes(rnd.randbytes(n))) if rnd.random() < 0.6 else (lambda n, tag: compressible(rnd, n, tag))
+    blocks = [mk(bs, k) for k in range(5)]
+    tail = mk(rnd.choice([0, 17, 300]), 99)
+    a = blocks[0] + blocks[1] + blocks[2] + tail
+    pool = [a,
+            a,                                             # identical
+            blocks[1] + blocks[2] + tail,                  # a sub-run of a (ends with it)
+            blocks[1] + tail,                              # a sub-run of a in the middle (one block)
+            blocks[3] * 3,                                 # repeats its own first block
+            blocks[3],                                     # ... and a file that is that block
+            blocks[0] + blocks[4],                         # first block of a, then something else
+            blocks[4] + blocks[0] + mk(5, 7),              # unrelated first block
+            mk(2 * bs + 9, 8)]                             # unrelated
+    rnd.shuffle(pool)
+    names = [n for n in NAMES if not any(ch in n for ch in b' "\\*?[')]
+    rnd.shuffle(names)
+    used, files = [], []
+    for name in names:
+        if len(files) >= min(len(pool), rnd.randint(4, 7)):
+            break
+        if any(name.startswith(u + b"/") or u.startswith(name + b"/") or u == name for u in used):
+            continue
+        used.append(name)
+        files.append((name, pool[len(files)]))
+    return files
+
+
+def gen_share_sortfile(rnd, files):
+    """simple grammar only (exact names, no quotes): the statement below parses it itself"""
+    lines = []
+    for p, _ in files:
+        if rnd.random() < 0.75:
+            toks = [k for k in FLAGKW if rnd.random() < (0.35 if k == b"dont_deduplicate" else 0.12)]
+            fl = (b"[" + b",".join(toks) + b"] ") if toks else b""
+            lines.append(b"%d " % rnd.choice([-2, -1, 0, 1, 1, 2, 3]) + fl + p)
+    rnd.shuffle(lines)
+    return b"\n".join(lines) + b"\n"
+
+
+def gen_share_cases(seed, n):
+    rnd = random.Random(seed * 104729 + 5)
+    cases = []
+    for i in range(n):
+        bs = 4096
+        files = gen_share_files(rnd, bs)
+        cases.append(dict(kind="order", share=True, id=200000 + i, mode="F" if rnd.random() < 0.3 else "D", bs=bs,
+                          files=[(hexs(p), hexs(d)) for p, d in files], sortfile=hexs(gen_share_sortfile(rnd, files)),
+                          notail=rnd.random() < 0.3, jobs=rnd.choice([1, 1, 3]), shuffle=rnd.randint(0, 1 << 30)))
+    return cases
+
+
+def directed_share_cases(bs=4096):
+    rb = random.Random(777)
+    X, Y, Z = rb.randbytes(bs), rb.randbytes(bs), rb.randbytes(bs)
+    out = []
+
+    def mk(files, sortfile, notail=False, mode="D"):
+        out.append(dict(kind="order", share=True, id=300000 + len(out), mode=mode, bs=bs,
+                        files=[(hexs(p), hexs(d)) for p, d in files], sortfile=hexs(sortfile), notail=notail, jobs=1,
+                        shuffle=len(out)))
+    two = [(b"a", X + Y + b"t1"), (b"z", X + Y + b"t1")]
+    mk(two, b"-1 z\n")                                   # the Coq example: a is shared with z
+    mk(two, b"-1 z\n0 [dont_deduplicate] a\n")           # ... unless it says dont_deduplicate
+    mk(two, b"-1 [dont_deduplicate] z\n")                # the flag on the FIRST file protects nothing
+    sub = [(b"a", X + Y + Z), (b"b", Y + Z), (b"c", Y), (b"d", Z + X)]
+    mk(sub, b"")                                         # b and c are sub-runs of a
+    mk(sub, b"5 a\n")                                    # a last: nothing to share with for b, c
+    mk(sub, b"", mode="F")
+    mk([(b"a", X), (b"b", X + X + X), (b"c", X + X)], b"")          # runs that overlap themselves
+    mk([(b"a", X + b"tail-one"), (b"b", b"tail-one" + X[8:])], b"")  # a's tail end is a prefix of b's first block
+    return out
+
+
+def simple_flags(sortfile, path):
+    """flags of the first line `prio [flags] path` naming exactly this path"""
+    for line in sortfile.split(b"\n"):
+        t = line.split()
+        if len(t) >= 2 and t[-1] == path:
+            return set(t[1].strip(b"[]").split(b",")) if len(t) == 3 else set()
+    return set()
+
+
+def file_blocks(d, bs, flags, notail):
+    """(blocks the frontend submits, tail end) of a file with these sort-file flags (sqfs_block_processor frontend)"""
+    n = len(d) // bs
+    full = [d[k * bs:(k + 1) * bs] for k in range(n)]
+    rest = d[n * bs:]
+    if rest and (b"dont_fragment" in flags or (notail and len(d) > bs)):
+        return full + [rest], None
+    return full, (rest or None)
+
+
+def kept(b, flags):
+    return len(b) > 0 and (b"nosparse" in flags or any(b))
+
+
+def share_statement(c, real):
+    """the strong layout statement (Properties_C17 layout_follows_order_strong / distinct_data_laid_out_in_order) on the
+    real image, in the tool's OWN packing order: a file that stores a block lies behind every file packed before it,
+    or it has no dont_deduplicate and starts exactly where a stored block of an earlier-packed file (or a fragment
+    block) with the same content as its first block starts, the following size words being those of its run; a file
+    whose first kept block is no block of an earlier file and has no tail end as a prefix must lie behind.
+    Returns (problems, shared file count)"""
+    files = dict((unhex(p), unhex(d)) for p, d in c["files"])
+    sortfile, bs, notail = unhex(c["sortfile"]), c["bs"], c["notail"]
+    order = real["packing"]
+    if sorted(order) != sorted(files):
+        return ["packing lines %r do not name the files %r" % (order, sorted(files))], 0
+    fl = {p: simple_flags(sortfile, p) for p in files}
+    jb = {p: file_blocks(files[p], bs, fl[p], notail) for p in files}
+    probs, nshared = [], 0
+    for j, pj in enumerate(order):
+        if pj not in real["ranges"]:
+            continue
+        sj, ej = real["ranges"][pj]
+        kj = [b for b in jb[pj][0] if kept(b, fl[pj])]
+        earlier = [p for p in order[:j] if p in real["ranges"]]
+        behind = all(real["ranges"][p][1] <= sj for p in earlier)
+        fresh = bool(kj) and all(kj[0] not in jb[p][0] for p in order[:j]) and \
+            all(not (jb[p][1] and kj[0].startswith(jb[p][1])) for p in files)
+        if behind:
+            continue
+        nshared += 1
+        if fresh:
+            probs.append("%r (first block new) starts at %d, inside data of files packed before it %r"
+                         % (pj, sj, [(p, real["ranges"][p]) for p in earlier]))
+            continue
+        if b"dont_deduplicate" in fl[pj]:
+            probs.append("%r carries dont_deduplicate but starts at %d, before the end of %r"
+                         % (pj, sj, [(p, real["ranges"][p]) for p in earlier if real["ranges"][p][1] > sj]))
+            continue
+        # the witness: an earlier stored block at exactly this offset with the content of the first kept block
+        wit = [(p, k) for p in earlier for (off, sz, comp, k) in real["blocks"][p]
+               if off == sj and jb[p][0][k] == kj[0]]
+        if not wit and not any(off == sj for off, _ in real["fragblocks"]):
+            probs.append("%r starts at %d before the end of earlier files, but no block of an earlier file with the "
+                         "content of its first block (and no fragment block) starts there" % (pj, sj))
+            continue
+        # the whole run stood there: every block of the run that lies inside the data of earlier files is, at exactly
+        # that offset, a block of an earlier file with the same content (or a fragment block)
+        nend = max(real["ranges"][p][1] for p in earlier)
+        for off, sz, comp, k in real["blocks"][pj]:
+            if off >= nend:
+                break
+            if not any(o == off and s2 == sz and jb[p][0][k2] == jb[pj][0][k]
+                       for p in earlier for (o, s2, c2, k2) in real["blocks"][p]) and \
+               not any(o == off for o, _ in real["fragblocks"]):
+                probs.append("%r: block %d at %d lies inside the data of earlier files but is no block of theirs with "
+                             "the same content" % (pj, k, off))
+                break
+    return probs, nshared
+
+
+# ---------------------------------------------------------------------------------------------
 # the two sides
 # ---------------------------------------------------------------------------------------------
 
@@ -284,16 +453,24 @@ def run_real(info, c, work, with_sort=True):
     if c["mode"] == "F":      # pack_files prints the input file it opens: back to the node it stands for
         res["packing"] = [inputs.get(l, l) for l in res["packing"]]
     im = sqimg.Image(img)
-    starts, frags, sizes = {}, {}, {}
+    starts, frags, sizes, ranges, blocks = {}, {}, {}, {}, {}
     for path, ino in im.files.items():
         p = path.encode("utf-8", "surrogateescape")
         sizes[p] = ino["file_size"]
         rng = im.data_range(ino)
         if rng is not None:
             starts[p] = rng[0]
+            ranges[p] = rng
+            pos, bl = ino["blocks_start"], []
+            for k, (sz, comp) in enumerate(ino["blocks"]):
+                if sz:
+                    bl.append((pos, sz, comp, k))      # (offset, on-disk size, compressed?, block number in the file)
+                pos += sz
+            blocks[p] = bl
         if ino["frag_idx"] != sqimg.NOFRAG:
             frags[p] = (ino["frag_idx"], ino["frag_off"])
-    res.update(starts=starts, frags=frags, sizes=sizes)
+    res.update(starts=starts, frags=frags, sizes=sizes, ranges=ranges, blocks=blocks,
+               fragblocks=[(f[0], f[1] & 0xFFFFFF) for f in im.frags], image=im.img)
     return res
 
 
@@ -327,6 +504,11 @@ def compare(c, pred, real):
     probs = []
     if sorted(order) != sorted(files) or sorted(real["sizes"]) != sorted(files):
         return ["file sets differ: model %r, image %r, input %r" % (sorted(order), sorted(real["sizes"]), sorted(files))]
+    if c.get("share"):
+        # contents coincide on purpose: offsets are not a function of the order alone; the order itself is
+        if real["packing"] != order:
+            probs.append("pack_file calls in order %r, model %r" % (real["packing"], order))
+        return probs
     by_start = sorted(real["starts"], key=lambda p: real["starts"][p])
     want = [p for p in order if p in real["starts"]]
     if by_start != want:
@@ -351,7 +533,8 @@ def run_leg(ctx, info, cases):
     work = os.path.join(workroot, "w")
     # the description files name their inputs with the path they will have in `work`
     preds, drv_status = run_model(drv, cases, work)
-    res = dict(bad=[], stats=dict(cases=0, refused=0, reordered=0, with_flags=0, mode_F=0), samples=[], drv=drv_status)
+    res = dict(bad=[], share_bad=[], stats=dict(cases=0, refused=0, reordered=0, with_flags=0, mode_F=0, share_cases=0,
+                                                files_shared=0), samples=[], drv=drv_status)
     for k, c in enumerate(cases):
         pred = preds.get(k, "no-output")
         real = run_real(info, c, work)
@@ -363,6 +546,13 @@ def run_leg(ctx, info, cases):
             res["stats"]["reordered"] += int([i for _, i, _, _ in pred] != sorted(i for _, i, _, _ in pred))
             res["stats"]["with_flags"] += int(any(fl for _, _, _, fl in pred))
         probs = compare(c, pred, real)
+        if c.get("share") and real["rc"] == 0:
+            sp, nshared = share_statement(c, real)
+            res["stats"]["share_cases"] += 1
+            res["stats"]["files_shared"] += nshared
+            if sp:
+                res["share_bad"].append((c, sp))
+        real.pop("image", None)
         if probs:
             res["bad"].append((c, probs, pred if isinstance(pred, str) else [(p.decode("latin-1"), i, z, fl) for p, i, z, fl in pred]))
         elif len(res["samples"]) < 3 and not isinstance(pred, str):
